@@ -1,5 +1,7 @@
 # coding: utf-8
 """C10 — literature citations survive assembly with consistent numbering."""
+EXTRA_OBLIGATION_FILES = ("Props/C10_src.v", "Props/C07_src.v",)
+
 import copy
 import re
 
